@@ -160,3 +160,87 @@ pub fn triples(seed: u64) -> String {
     }
     format!("{{\"found\":false,\"finder\":\"bounded stand-in: parse_triples\",\"bounded\":true,\"bound\":\"all strings of length <= 4 over 14 format-relevant bytes, length <= 6 behind three heads, 1500 random trees and one mutation of each\",\"cases\":{cases}}}")
 }
+
+/// `objcache`: the ObjectCache-based implementations (serialized length: C15; tree hash: C22) and the interned tree's hash
+/// (C22) against node_to_bytes / the recursive tree hash, on random DAGs (shared sub-trees, atoms at the one-/two-/three-byte
+/// length-prefix boundaries).  Bound: 2000 DAGs of at most 40 nodes, expanded size at most 200,000 nodes.
+pub fn objcache(seed: u64) -> String {
+    use clvmr::serde::{intern_tree, serialized_length, treehash, ObjectCache};
+    std::panic::set_hook(Box::new(|_| {}));
+    let mut rng = Rng(seed ^ 0x0bca);
+    let mut cases = 0u64;
+    let done = |m: String, cases: u64| format!("{{\"found\":true,\"finder\":\"bounded stand-in: object cache\",\"bounded\":true,\"what\":\"{}\",\"cases\":{cases}}}", m.replace('"', "'"));
+    for round in 0..2000u32 {
+        let mut a = Allocator::new();
+        let mut nodes: Vec<NodePtr> = vec![a.nil()];
+        let mut sizes: Vec<u64> = vec![1];
+        let mut desc: Vec<String> = vec!["()".to_string()];
+        for _ in 0..(1 + rng.below(5)) {
+            let len = [0usize, 1, 1, 2, 63, 64, 65, 0x1fff, 0x2000, 0x2001, 300][rng.below(if round % 50 == 0 { 11 } else { 7 }) as usize];
+            let fill = [0u8, 1, 0x7f, 0x80, 0xff][rng.below(5) as usize];
+            nodes.push(a.new_atom(&vec![fill; len]).unwrap());
+            sizes.push(1);
+            desc.push(format!("{len}x{fill:02x}"));
+        }
+        for _ in 0..(1 + rng.below(35)) {
+            let li = rng.below(nodes.len() as u64) as usize;
+            let ri = (nodes.len() - 1).saturating_sub(rng.below(4) as usize);
+            if sizes[li] + sizes[ri] > 200_000 {
+                continue;
+            }
+            let (li, ri) = if rng.below(2) == 0 { (li, ri) } else { (ri, li) };
+            nodes.push(a.new_pair(nodes[li], nodes[ri]).unwrap());
+            sizes.push(sizes[li] + sizes[ri] + 1);
+            desc.push(format!("(#{li} . #{ri})"));
+        }
+        let top = *nodes.last().unwrap();
+        let shape = desc.join(" ");
+        cases += 1;
+        let r = catch_unwind(AssertUnwindSafe(|| {
+            let want_hash = node_hash(&a, top);
+            let ser = node_to_bytes(&a, top).ok();
+            let mut lc: ObjectCache<u64> = ObjectCache::new(serialized_length);
+            let got_len = lc.get_or_calculate(&a, &top, None).copied();
+            if let Some(s) = &ser {
+                if got_len != Some(s.len() as u64) {
+                    return Some(format!("object-cache serialized length {:?}, node_to_bytes produces {} bytes", got_len, s.len()));
+                }
+            }
+            let mut hc = ObjectCache::new(treehash);
+            let got_hash = hc.get_or_calculate(&a, &top, None).map(|h| *h);
+            if got_hash.map(|h| h.to_vec()) != Some(want_hash.to_vec()) {
+                return Some("object-cache tree hash differs from the recursive definition".to_string());
+            }
+            match intern_tree(&a, top) {
+                Ok(t) => {
+                    if t.tree_hash() != want_hash {
+                        return Some("tree hash of the interned tree differs from the recursive definition".to_string());
+                    }
+                    if let Some(s) = &ser {
+                        if node_to_bytes(&t.allocator, t.root).ok().as_ref() != Some(s) {
+                            return Some("the interned tree serializes differently from the original".to_string());
+                        }
+                    }
+                }
+                Err(e) => return Some(format!("intern_tree failed: {e:?}")),
+            }
+            None
+        }));
+        match r {
+            Err(_) => return done(format!("panic on the tree built as: {shape}"), cases),
+            Ok(Some(m)) => return done(format!("{m}; tree built as: {shape}"), cases),
+            Ok(None) => {}
+        }
+    }
+    format!("{{\"found\":false,\"finder\":\"bounded stand-in: object cache\",\"bounded\":true,\"bound\":\"2000 random DAGs of at most 40 nodes (expanded size <= 200,000), atom lengths at the 1/2/3-byte prefix boundaries\",\"cases\":{cases}}}")
+}
+
+/// wrap a finder's JSON result as a bounded stand-in result
+pub fn mark_bounded(json: String, bound: &str) -> String {
+    let inner = json.trim();
+    if let Some(rest) = inner.strip_prefix('{') {
+        format!("{{\"bounded\":true,\"bound\":\"{bound}\",{rest}")
+    } else {
+        json
+    }
+}
